@@ -13,6 +13,7 @@ PROPS = {
     "C02": ("p_text", "check_c02"),
     "C03": ("p_analysis", "check_c03"),
     "C04": ("p_grammar", "check_c04"),
+    "C05": ("p_scope", "check_c05"),
     "C06": ("p_analysis", "check_c06"),
     "C07": ("p_workspace", "check_c07"),
     "C08": ("p_server", "check_c08"),
@@ -24,6 +25,8 @@ PROPS = {
     "C15": ("p_preproc", "check_c15"),
     "C16": ("p_workspace", "check_c16"),
     "C17": ("p_analysis", "check_c17"),
+    "C18": ("p_scope", "check_c18"),
+    "C19": ("p_scope", "check_c19"),
     "C20": ("p_vocab", "check_c20"),
 }
 
